@@ -144,7 +144,7 @@ func init() {
 	}
 	hx.Registry["c15-seeds"] = func(tier string) []*hx.Scope {
 		// every seed state itself (one trivial commit on top), with every limit from 0 to total+1
-		seeds := []string{"inline", "leaf", "twolevel", "threelevel", "overflow", "nested", "freeruns"}
+		seeds := []string{"inline", "leaf", "twolevel", "threelevel", "overflow", "nested", "freeruns", "bigkeys", "oddnames"}
 		cs := []apix.Cfg{{PageSize: 1024, Freelist: "array"}, {PageSize: 1024, Freelist: "array", NoFreelistSync: true}}
 		if tier == "thorough" {
 			cs = append(cs, apix.Cfg{PageSize: 4096, Freelist: "hashmap"}, apix.Cfg{PageSize: 4096, Freelist: "hashmap", NoFreelistSync: true})
